@@ -51,6 +51,7 @@ F = [
  ("C07","C07-crash-during-wal-repair","fixed","8d35d34","a crash while recovery repairs a damaged commit-log segment leaves wal/repair_temp with a partial file; the next repair appended to it, the result was 'still corrupted after repair' and the store did not open (found by the second-generation crash runs: crash -> recover -> crash inside recovery)"),
  ("C10","C10-version-listed-twice-after-crash","fixed","a4b37bd","process crash between the in-place update of the version index and the manifest switch of the same flush: after recovery the history listed those versions twice (once from the replayed memtable, once from the index)"),
  ("C10","C10-version-index-not-crash-consistent","open","","the B+tree version index is updated in place without journaling: a process crash between its page writes (header / node pages) leaves a tree file that does not load ('B+ tree error: Deserialization error: Invalid child count'), so the store does not open or versioned reads fail. Not repaired: needs a crash-safe update protocol for the index file (shadow paging or a log), far beyond a small patch"),
+ ("C17","C17-wakeup-lost-before-idle","fixed","7c3c34e","a memtable rotated in while the flush task was between its last look at the queue and clearing its running flag was never flushed (the wake-up is skipped while the flag is set): the task went idle, the immutable-memtable limit was reached and every commit waited in the write stall forever (seen as a quiescent process with 12 commits outstanding in a stress history)"),
  ("C11","C11-vlog-rotation-inside-flush-not-synced","fixed","f424741","a value-log file rotated away inside a flush was never fsynced; after power loss the installed table pointed at missing bytes"),
 ]
 out = {"_comment": "Committed; never written at run time. status=open: the directed scenario with the same id (harness/src/scenarios.rs or harness/src/props/crash.rs) still fails on the tree; the check prints KNOWN-FINDING for it and the generators mask exactly that pattern. status=fixed: repaired by the named fix: commit in /repo; suppresses nothing - the scenario stays in the check as a regression monitor and reports VIOLATION if the behaviour returns.",
